@@ -162,30 +162,31 @@ def _words_of(b, out):
             # U+200B alone: the box build.element_to_box adds to an otherwise empty list item
             out.extend(w for w in b.text.split() if w != '\u200b')
         return
-    if getattr(b, 'element_tag', '').endswith('::marker'):
+    if (getattr(b, 'element_tag', None) or '').endswith('::marker'):
         return
     for c in (getattr(b, 'children', ()) or ()):
         _words_of(c, out)
 
 
-def _ifc_items(b, items):
+def _ifc_items(b, items, top=None):
     """flatten the inline content of a LineBox / InlineBox: text items, 'a' for atomic inline-level boxes;
-    out-of-flow boxes are transparent"""
+    out-of-flow boxes are transparent.  Last field: index of the child of the line box the item comes from."""
     from weasyprint.formatting_structure import boxes
-    for c in b.children:
+    for i, c in enumerate(b.children):
+        t = i if top is None else top
         c = _unwrap(c)
         if isinstance(c, boxes.TextBox):
             items.append(['t', c.__dict__.get('_c08_orig'), c.style['white_space'], c.style['text_transform'],
-                          c.text, c.element_tag, c.style['hyphens']])
+                          c.text, c.element_tag or '', c.style['hyphens'], t])
         elif isinstance(c, boxes.InlineBox):
-            if c.element_tag.endswith('::marker'):
-                items.append(['a'])
+            if (c.element_tag or '').endswith('::marker'):
+                items.append(['a', t])
             else:
-                _ifc_items(c, items)
+                _ifc_items(c, items, t)
         elif not c.is_in_normal_flow():
             continue
         else:
-            items.append(['a'])
+            items.append(['a', t])
 
 
 def _host_in_flow(chain):
